@@ -188,6 +188,16 @@ GET_RAW = [
          ("/l[0]", ["2020-01-02"]), ("/c/d", ["2020-01-03"]),
          ("/*[.=1.50]", ["1.5"]), ("/c/*", ["2020-01-03", "1"]),
      ]),
+    # values which reach a hash through a YAML merge key and need converting
+    # for JSON (an anchored boolean, a date, a float)
+    ("base: &b\n  enabled: &on true\n  when: 2001-01-01\n  ratio: 1.50\n"
+     "svc:\n  <<: *b\n  port: 80\nl:\n  - <<: *b\n    x: *on\n", [
+         ("/svc", ['{"port": 80, "enabled": true, "when": "2001-01-01", '
+                   '"ratio": 1.5}']),
+         ("/l", ['[{"x": true, "enabled": true, "when": "2001-01-01", '
+                 '"ratio": 1.5}]']),
+         ("/l[0]/when", ["2001-01-01"]),
+     ]),
 ]
 
 
@@ -341,6 +351,16 @@ def shard_get_raw(st, wd):
             got = json.loads(res.out)
         except ValueError:
             got = None
+        if "<<" in text:
+            svc = got.get("svc") if isinstance(got, dict) else None
+            if not isinstance(svc, dict) or svc.get("enabled") is not True \
+                    or svc.get("when") != "2001-01-01" \
+                    or svc.get("ratio") != 1.5 or svc.get("port") != 80 \
+                    or got.get("extra") != 1:
+                st.fail("yaml-merge|json-typed-values", case,
+                        "merged-in true / date / float as JSON values",
+                        res.out[:300])
+            continue
         if not isinstance(got, dict) or got.get("d") != "2020-01-01" or \
                 got.get("l") != ["2020-01-02", "x"] or \
                 got.get("c") != {"d": "2020-01-03", "n": 1} or \
